@@ -157,7 +157,10 @@ def textOp (j : Json) : R Json := do
   match primary (cfgOf p) (fun path => p.world.lookup path) p.main with
   | .error e => pure (obj [("build", errJ e)])
   | .ok i =>
-    pure (obj [("list", jstr (listText i)),
+    let envL ← match fldOpt j "colorEnv" with
+      | none => pure []
+      | some v => listOf (fun kv => do let a ← kv.getArr?; pure ((← a[0]!.getStr?), (← a[1]!.getStr?))) v
+    pure (obj [("list", jstr (listText i)), ("listColor", jstr (listTextEnv (fun k => envL.lookup k) i)),
                ("help", Json.arr (words.map fun w =>
                   let r := help bin i [w]
                   Json.arr #[jstr r.1, Json.num (JsonNumber.fromInt r.2)]).toArray)])
